@@ -34,6 +34,7 @@ def main():
         res = report.Results(a.prop, a.tier)
         try:
             mod.run(P, res, a.tier)
+            res.raise_deferred()
         except AnalysisError as e:
             # definite violations found before the analysis got stuck are still a verdict
             if not any(o.status == 'violated' for o in res.obs):
